@@ -129,8 +129,9 @@ def main():
                             kw = {'n_features': 2, 'n_samples': ns, 'cardinality': 2, 'structure': [[[0, 1], vals]], 'ensure_rep': ens, 'seed': sd}
                             cols = [{'domain': vals}] * 2
                         else:
-                            kw = {'n_features': 2, 'n_samples': ns, 'cardinality': D, 'ensure_rep': ens, 'seed': sd, 'random_values': True, 'low': 10, 'high': 10 + 3 * D}
-                            cols = [{'domain': [], 'lo': 10, 'hi': 10 + 3 * D, 'card': D}] * 2
+                            lo_, hi_ = rng.choice([(10, 10 + 3 * D), (-60, 0), (-3 * D, -1), (0, 3 * D), (-D, D)])       # bounds at and across zero
+                            kw = {'n_features': 2, 'n_samples': ns, 'cardinality': D, 'ensure_rep': ens, 'seed': sd, 'random_values': True, 'low': lo_, 'high': hi_}
+                            cols = [{'domain': [], 'lo': lo_, 'hi': hi_, 'card': D}] * 2
                         items.append({'kw': kw})
                         metas.append((kind, D, ns, ens, cols))
         got = PC.pipe_eval([{'op': 'gen_data', 'items': items}], modules=['gen_ops'])[0]
